@@ -110,7 +110,7 @@ class Oracle:
 
 
 def cfg_for(unit: Any) -> ctl.Config:
-    return ctl.Config(alphabet=ALPHABET, closing=('gates', 'play', 'resume'), resume_default=('dflt',))
+    return ctl.Config(alphabet=ALPHABET, closing=('gates', 'play', 'resume_if_none'), resume_default=('dflt',))
 
 
 PROP = CtlProperty(ID, Oracle, cfg_for)
